@@ -565,7 +565,7 @@ def term_expr(spec):
             tot = tot + sp.sympify(term_expr(sub).sympy)
         return TimeDomainExpression(tot)
     if k == 'sdom':
-        return LaplaceDomainExpression(c / (ssym + sp.Rational(spec['a'])))
+        return LaplaceDomainExpression(c / (ssym + sp.Rational(spec['a'])), causal=True)
     if k == 'phasor':
         return PhasorDomainExpression(c + sp.I * sp.Rational(spec.get('ci', '0')), omega=sp.Rational(spec['w']))
     if k == 'noise':
